@@ -77,6 +77,11 @@ def dec(j, undef=None):
     if "d" in j: return {k: dec(x, undef) for k, x in j["d"]}
     if "o" in j: return make_obj(j["o"], [(k, dec(x, undef)) for k, x in j["a"]])
     if "x" in j:
+        if j.get("multi"):
+            # the library's own aggregate exception with NO member: must behave like any other exception value
+            # (the model treats it as a plain exception with an empty message)
+            from tartiflette.types.exceptions.tartiflette import MultipleException
+            return MultipleException()
         if j["x"]:
             from tartiflette.types.exceptions.tartiflette import TartifletteError
             return TartifletteError(j["m"], extensions={k: dec(x) for k, x in j["e"]} or None)
